@@ -35,11 +35,15 @@ CLAIMS["C16"] = dict(
         "designated leader is such a member; ValueError is raised only if every member is avoided by some cycle and never "
         "if some member lies on every cycle; singleton groups are cyclic iff self-loop. SCC computation: exhaustive kernel "
         "evaluation for all digraphs on <= 3 vertices under all vertex and adjacency orders and all 65536 4-vertex digraphs "
-        "under 2x2 orders (bounds in the statements). Model tied to sccutils.py/compute_left_recursives by correspondence "
-        "(exhaustive <= 3 vertices x all orders, 4 vertices sampled/all, 5-7 vertices sampled) with a brute-force oracle "
-        "of the property run on the implementation.",
-   design="6/C16", technique="Coq proof (DFS cycle enumeration sound+complete, unbounded) + exhaustive vm_compute for SCC <= 4 vertices + correspondence",
-   note="The unbounded SCC-algorithm theorem is not proved; SCC correctness beyond 4 vertices rests on the correspondence with a brute-force oracle.")
+        "under 2x2 orders (bounds in the statements); and, unbounded, a verified CHECKER (Proofs/SccCheck.v): for any graph "
+        "and any component list accepted by scc_check the components are exactly the mutual-reachability classes, each "
+        "vertex once, and flags accepted by lr_check are exactly the vertices on a cycle -- evaluated every run on the "
+        "components and left_recursive flags the REAL code produced for each explored graph. Model tied to "
+        "sccutils.py/compute_left_recursives by correspondence (exhaustive <= 3 vertices x all orders, 4 vertices "
+        "sampled/all, 5-7 vertices sampled) with a brute-force oracle of the property run on the implementation.",
+   design="6/C16", technique="Coq proof (DFS cycle enumeration sound+complete, unbounded) + verified SCC checker applied to the real output + exhaustive vm_compute for SCC <= 4 vertices + correspondence",
+   note="The SCC ALGORITHM is proved correct only up to 4 vertices; beyond that its output is validated per explored graph by "
+        "the verified checker (translation validation), not proved for all graphs.")
 CLAIMS["C17"] = dict(
    text="Coq theorems (Props/C17.v) over a file-system model of build_python_generator: for every previous state of the "
         "output path, every grammar-level outcome and every SET of fault points (exception or process kill at any "
